@@ -222,7 +222,7 @@ def _matrix_py(pf):
         vals = [float(geomgen.pt_eval(t, {})) for t in pf.terms]
         return [vals[0:3], vals[3:6], vals[6:9]]
     first = f"{vs[0]}[:, :1]"
-    comps = [geomgen.pt_py(t) if geomgen.pt_vars(t) else f"torch.full_like({first}, {float(geomgen.pt_eval(t, {}))!r})" for t in pf.terms]
+    comps = [geomgen.pt_py(t) if geomgen.pt_vars(t) else f"torch.full_like({first}, {float(geomgen.pt_eval(t, {}))!r}, dtype=torch.promote_types({first}.dtype, torch.float32))" for t in pf.terms]
     src = f"def _m({', '.join(vs)}):\n    return torch.column_stack([{', '.join(comps)}]).reshape(-1, 3, 3)\n"
     ns = {"torch": torch}
     exec(src, ns)
